@@ -441,7 +441,7 @@ func (w *world) waitFor(a *actor) (string, bool) {
 	select {
 	case m := <-a.at:
 		return m, true
-	case <-time.After(15 * time.Second):
+	case <-time.After(120 * time.Second): // (15 s was not enough on a machine loaded several times over: 7 schedules "hung" in a thorough run next to four other jobs)
 		return "", false
 	}
 }
